@@ -111,6 +111,24 @@ pub fn run(ctx: &mut Ctx) {
             one(ctx, &p2, &w2, "mutated");
         }
     }
+    // witness values of every bit length (each witness is hashed on its own into AMR and IHR: all
+    // block and padding boundaries of that hash), random values
+    let lens: Vec<usize> = if !ctx.quick() {
+        (1..=1100).collect()
+    } else {
+        (1..=24).chain(425..=460).chain(505..=520).chain(945..=965).chain(1020..=1030).collect()
+    };
+    for l in lens {
+        let plan = gen::witness_bits_plan(l);
+        match catch(|| gen::redeem_of_plan(&plan, &mut ctx.rng.fork(), true)) {
+            Ok(Ok((red, _))) => {
+                let (pb, wb) = red.to_vec_with_witness();
+                one(ctx, &pb, &wb, "witness-length");
+                ctx.count("reach:witness-length-sweep");
+            }
+            e => ctx.note(&format!("witness-length plan for {l} bits could not be built: {:?}", e.map(|r| r.map(|_| ())))),
+        }
+    }
     for _ in 0..ctx.scale(1000, 30_000) {
         let lp = 1 + ctx.rng.below(20) as usize;
         let lw = ctx.rng.below(5) as usize;
